@@ -1967,6 +1967,7 @@ impl Runner {
                     self.out.stats.push(("serve".to_string(), "nothing-pending".to_string()));
                     return Ok(());
                 }
+                let in_flight_before_serve = self.w.pending_fetches.iter().filter(|x| x.idx == self.w.pending_fetches[0].idx).count();
                 let f = self.w.pending_fetches.remove(0);
                 if let ServeK::Fail = k {
                     self.fetch_failed.insert(f.idx);
@@ -2029,9 +2030,11 @@ impl Runner {
                 let before = self.inv_count(f.idx).await;
                 let r = self.attack_event(f.idx, ev, kind.clone(), false).await;
                 if let (ServeK::Fail, Ok(_)) = (k, &r) {
-                    // BlockchainSyncState::mark_as_failed releases the entry: within a few scheduling rounds the same
-                    // block is asked for again from the same peer (500 retries are allowed), unless it arrived meanwhile
-                    let applies = {
+                    // BlockchainSyncState::mark_as_failed releases the entry (it is retried, 500 times at most, out of
+                    // the same per-peer quota): within a few scheduling rounds the number of fetches in flight towards
+                    // that peer is back to what it was -- the failed block or the next queued one is asked for.
+                    // A fetch that is never released keeps its quota slot for ever.
+                    let applies = f.hash != [0u8; 32] && {
                         let peers = self.w.n.peers.read().await;
                         let bc = self.w.n.blockchain.read().await;
                         peers.index_to_peers.get(&f.idx).map(|p| !p.block_fetch_url.is_empty()).unwrap_or(false) && !bc.is_block_indexed(f.hash)
@@ -2042,10 +2045,11 @@ impl Runner {
                             self.w.pump().await?;
                         }
                         let known_now = self.w.n.blockchain.read().await.is_block_indexed(f.hash);
-                        if !known_now && !self.w.pending_fetches.iter().any(|x| x.hash == f.hash && x.idx == f.idx) {
+                        let in_flight_now = self.w.pending_fetches.iter().filter(|x| x.idx == f.idx).count();
+                        if !known_now && in_flight_now < in_flight_before_serve {
                             self.limiter_failures.push(format!(
-                                "the fetch of block id {} from connection {} was reported failed and the block was not asked for again within three scheduling rounds (failed fetches must be released and retried)",
-                                f.id, f.idx
+                                "the fetch of block id {} from connection {} was reported failed; {} fetches were in flight towards that connection before, {} are three scheduling rounds later: the failed fetch was not released (failed fetches must be retried / their quota slot reused)",
+                                f.id, f.idx, in_flight_before_serve, in_flight_now
                             ));
                         }
                     }
@@ -2353,10 +2357,12 @@ async fn run_case(spec: &CaseSpec) -> CaseOut {
                     if !changed.is_empty() {
                         let id = match act {
                             // since fix 92b2ed5 a full node ignores ghost chains; a lite node still takes them from any peer
-                            Act::AMsg(_, Msg::GhostChain(_)) | Act::AFlood(_, Msg::GhostChain(_), _) if spec.spv_n && changed.iter().all(|c| c.starts_with("chain")) => Some("unsolicited-ghost-chain-accepted-lite".to_string()),
+                            // (the fabricated tip also moves the window: ledger entries and wallet slips fall out of it)
+                            Act::AMsg(_, Msg::GhostChain(_)) | Act::AFlood(_, Msg::GhostChain(_), _) if spec.spv_n && changed.iter().all(|c| ["chain", "utxo", "wallet", "mempool"].iter().any(|n| c.starts_with(n))) => Some("unsolicited-ghost-chain-accepted-lite".to_string()),
                             _ => None,
                         };
-                        let txt: String = changed.join(" ;; ").chars().take(600).collect();
+                        let names: Vec<&str> = changed.iter().map(|c| c.split(':').next().unwrap_or("")).collect();
+                        let txt: String = format!("[{}] {}", names.join(","), changed.join(" ;; ")).chars().take(700).collect();
                         r.out.failures.push((pos, act.label(), id, format!("rejected input {} changed honest-visible state: {}", served_kind, txt)));
                         // the state is no longer what an honest run would have: the case ends here
                         // (C11_CONTINUE=1: keep going, to look at the consequences of a listed finding)
